@@ -4,7 +4,7 @@
 # /tmp/regress.  For each seed: apply, run the quick check of the property named in meta.json (or in detected_by when
 # the seed is reported by a sibling property's check), expect exit 1; revert.  Prints one line per seed.
 set -u
-R=/tmp/regress
+R=${REGRESS_DIR:-/tmp/regress}
 mkdir -p $R
 if [ ! -d $R/repo ]; then git -C /repo worktree add --detach $R/repo HEAD -q; fi
 git -C $R/repo checkout -q --detach "$(git -C /repo rev-parse HEAD)"; git -C $R/repo checkout -- .
